@@ -74,15 +74,21 @@ func c10Verdict(ms []jmem) (mime, ext string, top, inner int) {
 
 type c10Layout struct {
 	afterOpen, beforeColon, afterColon, afterVal, afterComma string
+	lead, trail                                             string // white space around the whole object
 }
 
 var c10Layouts = []c10Layout{
-	{"", "", "", "", ""},
-	{" ", "", " ", "", " "},
-	{"\n  ", "", ": "[1:], "\n", "\n  "},
-	{"\r\n\t", " ", " ", "\r\n", "\r\n\t"},
-	{"", "\t", "\n", " ", ""},
-	{" ", " ", " ", " \t", " "},
+	{"", "", "", "", "", "", ""},
+	{" ", "", " ", "", " ", "", ""},
+	{"\n  ", "", ": "[1:], "\n", "\n  ", "", "\n"},
+	{"\r\n\t", " ", " ", "\r\n", "\r\n\t", "", "\r\n"},
+	{"", "\t", "\n", " ", "", "", ""},
+	{" ", " ", " ", " \t", " ", "", " "},
+	// white space in front of the opening brace (the first byte is not '{')
+	{"", "", "", "", "", " ", ""},
+	{"\n  ", "", " ", "\n", "\n  ", "\n", "\n"},
+	{" ", "", " ", "", " ", "\r\n\t ", " "},
+	{"", "", "", "", "", "\t", "\t"},
 }
 
 type c10Ser struct {
@@ -143,7 +149,9 @@ func (s *c10Ser) obj(ms []jmem, depth int, topIdx int) {
 
 func c10Serialize(ms []jmem, lay c10Layout) ([]byte, []int, [][]int) {
 	s := &c10Ser{lay: lay, topEnd: make([]int, len(ms)), innEnd: make([][]int, len(ms))}
+	s.buf.WriteString(lay.lead)
 	s.obj(ms, 0, -1)
+	s.buf.WriteString(lay.trail)
 	return s.buf.Bytes(), s.topEnd, s.innEnd
 }
 
@@ -155,7 +163,32 @@ var queryKeys = []string{"type", "log", "asset", "version", "creator", "entries"
 
 // c10Sibling returns a random non-deciding member (it never completes a
 // verdict on its own at the top level) and a shape tag.
+// c10Deep nests `inner` d levels deep in arrays and objects (a sibling whose depth
+// exceeds any fixed-size path stack must not change what the members after it mean).
+func c10Deep(r *rand.Rand, d int, inner jval) jval {
+	v := inner
+	for i := 0; i < d; i++ {
+		if r.Intn(2) == 0 {
+			v = arr(v)
+		} else {
+			v = obj(jmem{[]string{"k", "type", "log", "version"}[r.Intn(4)], v})
+		}
+	}
+	return v
+}
+
+var c10DeepDepths = []int{100, 126, 127, 128, 129, 130, 200, 300}
+
 func c10Sibling(r *rand.Rand, depth int) (jmem, string) {
+	if r.Intn(14) == 0 {
+		d := c10DeepDepths[r.Intn(len(c10DeepDepths))]
+		inner := []jval{raw(`1`), raw(`"Feature"`), obj(jmem{"type", raw(`"Feature"`)}), arr()}[r.Intn(4)]
+		if r.Intn(2) == 0 {
+			// a nested (non-top-level) object: deep sibling first, then look-alike query keys
+			return jmem{[]string{"a", "geometry", "properties"}[r.Intn(3)], obj(jmem{"deep", c10Deep(r, d, inner)}, jmem{"type", raw(`"Feature"`)}, jmem{"log", obj(jmem{"version", raw(`"1.2"`)})}, jmem{"asset", obj(jmem{"version", raw(`"2.0"`)})})}, "deep-then-lookalike"
+		}
+		return jmem{[]string{"a", "b", "features", "scenes"}[r.Intn(4)], c10Deep(r, d, inner)}, "deep"
+	}
 	keys := []string{"a", "b", "name", "id", "Type", "types", "typ", "logs", "Log", "assets", "Asset", "versions", "x y", "accessors", "features", "geometry", "properties", "scenes", "bbox", "coordinates"}
 	key := keys[r.Intn(len(keys))]
 	scalars := []string{`1`, `-2.5e3`, `true`, `false`, `null`, `"x"`, `""`, `"Feature "`, `" Point"`, `"feature"`, `"3.0"`, `"2.0 "`, `"1.0"`, `"a,b"`, `"}"`, `"]"`, `"[{"`, `"\\"`, `"\""`, `"é"`, `"é"`}
@@ -253,6 +286,9 @@ func c10Decider(r *rand.Rand, which int) jmem {
 			}
 			inner = append(inner, m)
 		}
+		if r.Intn(5) == 0 { // a very deep sibling inside log, in front of the deciding key
+			inner = append(inner, jmem{"pages", c10Deep(r, c10DeepDepths[r.Intn(len(c10DeepDepths))], raw(`1`))})
+		}
 		inner = append(inner, jmem{k, vals[k][r.Intn(len(vals[k]))]})
 		for i := r.Intn(2); i > 0; i-- {
 			m, _ := c10Sibling(r, 2)
@@ -267,6 +303,9 @@ func c10Decider(r *rand.Rand, which int) jmem {
 				continue
 			}
 			inner = append(inner, m)
+		}
+		if r.Intn(5) == 0 { // a very deep sibling inside asset, in front of the deciding key
+			inner = append(inner, jmem{"extras", c10Deep(r, c10DeepDepths[r.Intn(len(c10DeepDepths))], raw(`"x"`))})
 		}
 		inner = append(inner, jmem{"version", raw([]string{`"1.0"`, `"2.0"`}[r.Intn(2)])})
 		for i := r.Intn(2); i > 0; i-- {
@@ -283,7 +322,7 @@ func c10JudgeObject(c *fw.Ctx, ms []jmem, lay c10Layout, tags []string, allLimit
 		panic(fmt.Sprintf("verif harness: C10 generator produced invalid JSON %q", d))
 	}
 	wantT, wantE, top, inner := c10Verdict(ms)
-	from := 1
+	from := len(lay.lead) + 1 // the opening brace must be inside the header
 	if top >= 0 {
 		from = topEnd[top]
 		if inner >= 0 {
@@ -292,9 +331,16 @@ func c10JudgeObject(c *fw.Ctx, ms []jmem, lay c10Layout, tags []string, allLimit
 	}
 	var lims []uint32
 	lims = append(lims, 0, uint32(len(d)+1), 3072)
-	if allLimits {
+	if allLimits && len(d)-from <= 400 {
 		for L := from; L <= len(d); L++ {
 			lims = append(lims, uint32(L))
+		}
+	} else if allLimits {
+		// long documents (very deep siblings): the first and last 60 limits, 120 in between
+		for L := from; L <= len(d); L++ {
+			if L < from+60 || L > len(d)-60 || c.Rand.Intn(1+(len(d)-from)/120) == 0 {
+				lims = append(lims, uint32(L))
+			}
 		}
 	} else {
 		lims = append(lims, uint32(from), uint32(len(d)))
@@ -463,7 +509,7 @@ func init() {
 	fw.Register(&fw.Prop{
 		ID:    "C10",
 		Level: "exploration",
-		Rule: "objects are built as member lists: 0-2 deciding members (type / log / asset, every accepted value form) among siblings that are scalars (incl. look-alike values \"Feature \", \"feature\", \"3.0\"), empty/non-empty/nested arrays, nested objects re-using the query keys at other depths, look-alike top-level members (type as array/object, log as array, asset.version 3.0 / number), duplicates; ALL permutations for <= 5 members; 6 whitespace layouts (compact, spaced, LF-indented, CRLF-indented, …); whole mode and every limit from the end of the deciding value to len (random objects) or sampled limits (permutations, documents around the 3072 default limit). Expected verdict computed on the structure. " +
+		Rule: "objects are built as member lists: 0-2 deciding members (type / log / asset, every accepted value form) among siblings that are scalars (incl. look-alike values \"Feature \", \"feature\", \"3.0\"), empty/non-empty/nested arrays, nested objects re-using the query keys at other depths, look-alike top-level members (type as array/object, log as array, asset.version 3.0 / number), duplicates; ALL permutations for <= 5 members; 10 whitespace layouts (4 with white space in front of the opening brace) (compact, spaced, LF-indented, CRLF-indented, …); whole mode and every limit from the end of the deciding value to len (random objects) or sampled limits (permutations, documents around the 3072 default limit). Expected verdict computed on the structure. " +
 			"non-trivial = some sibling is a non-empty array, a non-empty object or a look-alike member; distinct = distinct (sorted sibling shapes before the deciding member, verdict, mode, layout).",
 		Assumptions: []string{
 			"deciding keys and values are spelled literally (no escapes), as the statement requires",
